@@ -41,6 +41,9 @@ Definition holds (c : case) (o : obs) : list string :=
 Definition valid (c : case) : Prop :=
   old_end_headers c = false /\ case_ok (cenv c) (chandlers c) = true.
 
+(* [valid] as a boolean (C03.Props.C03_validb_valid); all of [valid] is decidable from the case *)
+Definition validb (c : case) : bool := negb (old_end_headers c) && case_ok (cenv c) (chandlers c).
+
 (* ---------- sx ---------- *)
 Definition dec_hdr (x : sx) : option header :=
   match x with L [B k; B v] => Some (k, v) | _ => None end.
@@ -114,5 +117,5 @@ Definition entry (x : sx) : sx :=
   | None => sxS "bad-case"
   | Some (c, io) =>
       let m := run_model c in
-      L [ enc_obs m; L (map sxS (holds c m)); L (map sxS (holds c io)); enc_pobs (Parsed (spec c)) ]
+      L [ enc_obs m; L (map sxS (holds c m)); L (map sxS (holds c io)); enc_pobs (Parsed (spec c)); sxBool (validb c) ]
   end.
